@@ -68,18 +68,22 @@ func (e *Env) BindAggs() error {
 				pkg = p.Pkg
 			}
 		}
-		d := &AggDecl{Name: a.Name, TableID: a.Table, RowType: rt}
-		d.Eval = func(ex *Exec, row Val, key []*smt.Term) ([]*smt.Term, *smt.Term) {
+		d := &AggDecl{Name: a.Name, TableID: a.Table, RowType: rt, Params: a.Params}
+		d.Eval = func(ex *Exec, row Val, key []*smt.Term, params []*smt.Term) *smt.Term {
 			ev := &evalEnv{ex: ex, vars: map[string]tval{}, oldVars: map[string]tval{}, specs: e.Specs, pkg: pkg}
 			ev.vars["row"] = tval{row, rt}
 			for i, k := range key {
 				ev.vars[fmt.Sprintf("key%d", i)] = tval{k, nil}
 			}
-			var g []*smt.Term
-			for _, ge := range a.Group {
-				g = append(g, ex.term(ev.eval(ge).V))
+			if len(params) != len(a.Params) {
+				ex.abort("aggregate %s expects %d parameters", a.Name, len(a.Params))
 			}
-			return g, ex.term(ev.eval(a.Value).V)
+			for i, p := range a.Params {
+				ev.vars[p] = tval{params[i], nil}
+			}
+			ex.inSpec++
+			defer func() { ex.inSpec-- }()
+			return ex.term(ev.eval(a.Value).V)
 		}
 		e.Cfg.Aggs = append(e.Cfg.Aggs, d)
 	}
